@@ -617,6 +617,35 @@ def pl_corr(res, pagesize):
 # ----------------------------------------------------------------------------------------------
 # the write-path engine model (Coq, extracted), page for page against the library's committed files
 # ----------------------------------------------------------------------------------------------
+def dump_bucket_paths(text):
+    """bucket paths (lists of hex names), parents first, in a harness dump `(kv k v)(bk name next (...)...)`"""
+    toks = text.replace("(", " ( ").replace(")", " ) ").split()
+    out, stack, i = [], [], 0
+    depth_of = []          # paren depth at which each open bucket closes
+    depth = 0
+    try:
+        while i < len(toks):
+            t = toks[i]
+            if t == "(":
+                depth += 1
+                if toks[i + 1] == "bk":
+                    stack.append(toks[i + 2]); depth_of.append(depth)
+                    out.append(list(stack))
+                    i += 4          # ( bk name next
+                    continue
+                i += 1
+            elif t == ")":
+                if depth_of and depth_of[-1] == depth:
+                    stack.pop(); depth_of.pop()
+                depth -= 1
+                i += 1
+            else:
+                i += 1
+        return out if depth == 0 and not stack else None
+    except IndexError:
+        return None
+
+
 def engine_corr(res, pagesize):
     """replays the run's successful write operations in the Gallina engine (model/Engine.v) and compares every
     committed state with the snapshot file: header fields, free-list ids, every reachable page (id, overflow,
@@ -662,6 +691,36 @@ def engine_corr(res, pagesize):
             lines.append("D %s %s" % ("/".join(txs[w[1]]["handles"][w[2]]) or "/", w[3])); origin.append(i)
         elif w[0] == "delb" and w[1] in txs and txs[w[1]]["w"] and a == "ok" and w[2] in txs[w[1]]["handles"]:
             lines.append("X %s %s" % ("/".join(txs[w[1]]["handles"][w[2]]) or "/", w[3])); origin.append(i)
+            # handles into the deleted subtree are dead (a bucket re-created under the same name is another object)
+            gone = txs[w[1]]["handles"][w[2]] + [w[3]]
+            for h in [h for h, pth in txs[w[1]]["handles"].items() if pth[:len(gone)] == gone]:
+                del txs[w[1]]["handles"][h]
+        elif w[0] in ("get", "scan", "seek", "range") and w[1] in txs and txs[w[1]]["w"] and w[2] in txs[w[1]]["handles"] \
+                and w[2] != "0" and a.split(":")[0] in ("opt", "items", "seek") and "PANIC" not in a and "ENDLESS" not in a:
+            # reads the library answered INSIDE the write transaction: the model's overlay (model/EngineScan.v: the engine's
+            # own search, and the cursor machine on the overlay tree) must give the same answer
+            pth = "/".join(txs[w[1]]["handles"][w[2]])
+            if w[0] == "get":
+                lines.append("G %s %s | %s" % (pth, w[3], a))
+            elif w[0] == "scan":
+                lines.append("S %s | %s" % (pth, a))
+            elif w[0] == "seek":
+                lines.append("K %s %s | %s" % (pth, w[3], a))
+            else:
+                lines.append("R %s %s %s %s %s | %s" % (pth, w[3], w[4], w[5], w[6], a))
+            origin.append(i)
+        elif w[0] == "buckets" and w[1] in txs and txs[w[1]]["w"] and w[2] in txs[w[1]]["handles"] and a.startswith("items:") \
+                and all(x.startswith("bk:") for x in a[6:].split()):
+            # the buckets() iterator of a WRITE transaction opens every nested bucket it passes: one Touch each
+            for x in a[6:].split():
+                lines.append("T %s" % "/".join(txs[w[1]]["handles"][w[2]] + [x[3:]])); origin.append(i)
+        elif w[0] == "dump" and w[1] in txs and txs[w[1]]["w"] and a.startswith("dump:") and "ERR:" not in a:
+            # the harness's dump opens every bucket of the tree, parents first
+            paths = dump_bucket_paths(a[5:])
+            if paths is None:
+                break
+            for pth in paths:
+                lines.append("T %s" % "/".join(pth)); origin.append(i)
         elif w[0] in ("dump", "buckets", "getbi") and w[1] in txs and txs[w[1]]["w"]:
             break
         elif w[0] == "getbi" and w[1] in txs:
@@ -703,12 +762,19 @@ def engine_corr(res, pagesize):
     rc, out = sh([MONITOR, "engine", str(pagesize), f], timeout=600)
     ls = [l for l in out.split("\n") if l.strip()]
     m = re.search(r"done commits=(\d+) exact=(\d+)", ls[-1]) if ls else None
+    mr = re.search(r"reads=(\d+) reads_skipped=(\d+)", ls[-1]) if ls else None
+    if mr:
+        res["engine_reads"] = res.get("engine_reads", 0) + int(mr.group(1))
+        res["engine_reads_skipped"] = res.get("engine_reads_skipped", 0) + int(mr.group(2))
     for l in ls:
         if l.startswith("DIFF"):
             mm = re.match(r"DIFF line=(\d+) (.*)", l)
             k = int(mm.group(1)) - 1
             i = origin[k] if k < len(origin) else 0
-            res["checks_bad"].append((i, res["cmds"][i] + "   [write-path engine model vs the committed file, page for page]", "identical pages", mm.group(2)[:300]))
+            if "read inside the write transaction" in mm.group(2) or "on a read" in mm.group(2):
+                res["checks_bad"].append((i, res["cmds"][i] + "   [engine model's overlay (model/EngineScan.v) vs the library's answer inside the write transaction]", "identical answer", mm.group(2)[:500]))
+            else:
+                res["checks_bad"].append((i, res["cmds"][i] + "   [write-path engine model vs the committed file, page for page]", "identical pages", mm.group(2)[:300]))
             break
     if not m and not any(l.startswith("DIFF") for l in ls):
         res["checks_bad"].append((0, "engine", "done", "monitor engine failed: " + out[-300:]))
